@@ -61,7 +61,7 @@ func (p pParam) yaml(ind int, required bool, kind pKind) string {
 func genParamFamily(c *Ctx, filter func(string) bool) {
 	n := 12
 	if c.Tier == "thorough" {
-		n = 48
+		n = 36
 	}
 	cell := 0
 	for i := 0; i < n; i++ {
